@@ -9,6 +9,7 @@ from lib import framework as fw
 from lib import fstree
 from props import walk_common as wc
 from props import xargs_common as xc
+from props import known_common as kc
 
 RULE = ("(token string, tree(s)) cases: grammar sentences to depth 5 over tests (-true -false -name -type -maxdepth), actions (-printf -print -print0 "
         "-fprint -exec true/false), -quit, -prune, with '!'/-not, -a/-and/juxtaposition, -o/-or, ',' and parentheses; 15% near-sentences; "
@@ -293,6 +294,7 @@ def run(ctx):
     forest = wc.Forest("c01-")
     try:
         child_output_order(ctx, forest)
+        kc.paren_depth(ctx, "C01", forest.dir)
         treenames, entry_names = [], {}
         for k in range(12 if ctx.thorough else 5):
             nm = b"e%d" % k
